@@ -140,6 +140,43 @@ PY = {'py_with_conversion_of_digits': 'set_digit', 'py_with_conversion_of_non_di
       'py_with_conversion_of_repetitions': 'set_rep', 'py_with_case_insensitive_matching': 'set_ci', 'py_with_capturing_groups': 'set_cap',
       'py_with_verbose_mode': 'set_verbose', 'py_without_start_anchor': 'set_no_start', 'py_without_end_anchor': 'set_no_end', 'py_without_anchors': 'set_no_anchors'}
 
+def _py_escape_forms(b):
+    """C14: every \\u{h..} escape the library can print (char::escape_unicode: 1..=6 lower-case hex digits, no leading zeros) is rewritten to Python's
+    \\uXXXX (up to 4 digits) or \\UXXXXXXXX (5 or 6 digits).  The digit ranges and the output forms are READ from the regex literals and the format
+    strings of replace_unicode_escape_sequences; the obligation over them is discharged by Verus."""
+    py = b.src('python.rs')
+    f, _, _ = X.fn(py, 'replace_unicode_escape_sequences')
+    regs = re.findall(r'static ref (\w+): Regex\s*=\s*Regex::new\(r"([^"]*)"\)\.unwrap\(\);', f)
+    if not regs: raise X.LostAnchor('python.rs::replace_unicode_escape_sequences: lazy_static regexes')
+    rng = {}
+    for name, pat in regs:
+        m = re.fullmatch(r'\\\\u\\\{\(\[0-9a-f\]\{(\d+)(?:,(\d+))?\}\)\\\}', pat)
+        if not m: raise X.LostAnchor('python.rs::replace_unicode_escape_sequences: pattern %r is not \\\\u\\{([0-9a-f]{m[,n]})\\}' % pat)
+        rng[name] = (int(m.group(1)), int(m.group(2) or m.group(1)))
+    calls = re.findall(r'\b(\w+)\s*\.replace_all\(\s*&\w+\s*,\s*\|caps: &Captures\|\s*\{?\s*format!\("((?:[^"\\\\]|\\\\.)*)",\s*&caps\[1\]\)\s*\}?\s*\)', f)
+    if len(calls) != f.count('.replace_all(') or not calls: raise X.LostAnchor('python.rs::replace_unicode_escape_sequences: a replace_all call is not `R.replace_all(&s, |caps: &Captures| format!("..", &caps[1]))`')
+    forms = []
+    for name, fmt in calls:
+        if name not in rng: raise X.LostAnchor('python.rs::replace_unicode_escape_sequences: unknown regex %s' % name)
+        m = re.fullmatch(r'\\\\([uU])(0*)\{(?::0>(\d+))?\}', fmt)
+        if not m: raise X.LostAnchor('python.rs::replace_unicode_escape_sequences: format string %r' % fmt)
+        forms.append((rng[name][0], rng[name][1], m.group(1), len(m.group(2)), int(m.group(3) or 0)))
+    b.log.add('R7', 'python.rs::replace_unicode_escape_sequences', '%d regex literals, %d replace_all calls' % (len(regs), len(calls)), 'py_forms(): (min digits, max digits, prefix, literal zeros, pad width) per call, in call order')
+    b.emit('''// one entry per replace_all call, in call order: the digit counts its regex matches, the Python prefix it writes, literal zeros, {:0>w} pad width
+pub struct PyForm { pub lo: int, pub hi: int, pub prefix: char, pub zeros: int, pub width: int }
+pub open spec fn py_forms() -> Seq<PyForm> { seq![%s] }
+pub open spec fn covers(f: PyForm, d: int) -> bool { f.lo <= d <= f.hi }
+pub open spec fn out_digits(f: PyForm, d: int) -> int { f.zeros + if d >= f.width { d } else { f.width } }
+// what C14 demands of an escape with d hex digits (d <= 4: a BMP code point, d >= 5: above U+FFFF)
+pub open spec fn python_form(f: PyForm, d: int) -> bool { if d <= 4 { f.prefix == 'u' && out_digits(f, d) == 4 } else { f.prefix == 'U' && out_digits(f, d) == 8 } }
+pub open spec fn first_cover(d: int, k: int) -> bool { 0 <= k < py_forms().len() && covers(py_forms()[k], d) && forall|j: int| 0 <= j < k ==> !covers(#[trigger] py_forms()[j], d) }''' % ', '.join("PyForm { lo: %d, hi: %d, prefix: '%s', zeros: %d, width: %d }" % fm for fm in forms))
+    b.emit('pub open spec fn rewritten_ok(d: int) -> bool { exists|k: int| #[trigger] first_cover(d, k) && python_form(py_forms()[k], d) }')
+    b.lemma('python.every_escape_length_is_rewritten', ['C14'], '''pub proof fn lemma_every_escape_length_is_rewritten()
+    ensures rewritten_ok(1) && rewritten_ok(2) && rewritten_ok(3) && rewritten_ok(4) && rewritten_ok(5) && rewritten_ok(6)       // char::escape_unicode writes 1..=6 hex digits
+{
+    %s
+}''' % '\n    '.join('assert(rewritten_ok(%d)) by { %s }' % (d, ' '.join('if first_cover(%d, %d) && python_form(py_forms()[%d], %d) { }' % (d, k, k, d) for k in range(len(forms)))) for d in range(1, 7)))
+
 def build_python(repo, spec_dir, canary=False):
     """C14: the #[pymethods] wrappers have exactly the library setters' effect; errors carry the library's messages; build applies the escape rewrite iff escaping is on."""
     b = Builder('python', repo, canary)
@@ -184,7 +221,9 @@ impl RegExpConfig {''')
             Clause('python.%s.positive' % m, '%s > 0 ==> (r is Ok && r->Ok_0.config == %s(old(self_).config, %s as u32) && r->Ok_0.test_cases == old(self_).test_cases && *final(r->Ok_0) == *final(self_))' % (p, sp, p), ['C14'])])
     b.verified_fn(src, 'py_build', within=P, props=['C07'], fname='python::py_build', extra_rules=R20, clauses=[
         Clause('python.build.delegates', 'r@ == (if old(self).config.is_non_ascii_char_escaped { py_escapes(build_spec(*old(self))) } else { build_spec(*old(self)) })', ['C14'])])
-    b.emit('}\n} // verus!\nfn main() {}')
+    b.emit('}')
+    _py_escape_forms(b)
+    b.emit('} // verus!\nfn main() {}')
     b.trusted += ['pyo3 glue (#[pymethods], #[new], #[classmethod], #[pyo3(name)]) is stripped (R0); PyRefMut<Self> is treated as an exclusive borrow (R20); PyValueError::new_err builds a ValueError with the given message',
-                  'replace_unicode_escape_sequences (two regex replace_all calls) is opaque: whether every \\u{h..} form is rewritten is NOT decided', 'RegExpBuilder::build is the library pipeline (opaque here)']
+                  'replace_unicode_escape_sequences: the regex crate matches `\\\\u\\{([0-9a-f]{m,n})\\}` exactly on \\u{ + m..n lower-case hex digits + }, replace_all rewrites every match with the closure\'s text, format! pads as documented ({:0>w}); only the digit counts and the produced forms are decided, from the literals found in the source', 'RegExpBuilder::build is the library pipeline (opaque here)']
     return b
